@@ -37,16 +37,16 @@ theorem P3.symm {X Y : AConn} {Q Q' : List AFrame} (h : P3 X Y Q Q') : P3 Y X Q'
 
 /-- `Y` takes the head of the queue `X → Y` -/
 theorem recv3 {X Y : AConn} {f : AFrame} {rest Q' : List AFrame} (h : P3 X Y (f :: rest) Q') (he1 : 1 ≤ X.e)
-    (hk : keysOK Y.o Y.out) :
+    (hk : keysOK Y.o Y.out) (hmax : Y.o ≤ sysMaxsize + 1) :
     P3 X (arecv Y f).c rest (Q' ++ (arecv Y f).wr) ∧ (arecv Y f).c.ini = Y.ini := by
   obtain ⟨hX, hY, hQ, hQ', d1, d2, wX, wY⟩ := h
   obtain ⟨hh1, hh2, hh3⟩ := dirsync_head d1 hY
   obtain ⟨hc, hwr⟩ := arecv_est Y f hY hh1 (hQ f (by simp)) hh2 hh3
-  obtain ⟨_, s2, s3⟩ := dirsync_serve (Y' := Y) d2 hX rfl he1 hk
+  obtain ⟨_, s2, s3⟩ := dirsync_serve (Y' := Y) d2 hX rfl he1 hk hmax
   have hq : requests (Q' ++ (served Y f).2) = requests Q' := by
     rw [requests_append, requests_data s2, List.append_nil]
   obtain ⟨r1, r2, r3, r4, r5⟩ := dirsync_recv d1 hY s3 hq wY (arecv Y f).c hc
-  obtain ⟨t1, _, _⟩ := dirsync_serve (Y' := (arecv Y f).c) d2 hX r4 he1 hk
+  obtain ⟨t1, _, _⟩ := dirsync_serve (Y' := (arecv Y f).c) d2 hX r4 he1 hk hmax
   rw [hwr]
   refine ⟨⟨hX, r2, fun g hg => hQ g (by simp [hg]), ?_, r1, t1, wX, r3⟩, r5⟩
   intro g hg
